@@ -18,43 +18,26 @@ Local Open Scope Z_scope.
                     (o_owner out = false -> len b <= o_cnt out * o_esz out)
      | Err e => e = -1 | Oob => False | NoFuel => False end
    out_ok o := 0 < o_esz o /\ 0 <= o_cnt o /\ o_cnt o * o_esz o < BIG          (BIG = 2^62)
-   alloc_ok data out maxsz := o_owner out = true -> 0 < maxsz < BIG \/ hdr_size data < BIG
-   (hdr_size data = the original size the header of the text declares)
+   DATA_MAX = 2^52 (the input text is shorter than 4 PiB)
 
-   FULL-STRENGTH statement (all inputs, all output kinds, all maxima):
-     forall data out maxsz, bytes data -> len data < BIG -> out_ok out -> 0 <= maxsz ->
-       decode_post out maxsz (sc_decode data out maxsz).
-   It is FALSE of the pinned code: see C07_decode_unguarded_refuted below (finding
-   declared-size-over-2^62).  It is proved under the exact guard alloc_ok, which excludes only: owner output
-   array AND no maximum (or one >= 2^62) AND declared size >= 2^62. *)
+   FULL-STRENGTH statements: every input, every output kind (owner / view of any capacity, any element size;
+   in place = the descriptor of the input array), every maximum - no guard.  Since commit 5c6a588 the decoder
+   refuses a declared size above 1032 x the compressed bytes (generated slice dec_guard_ratio) before it
+   allocates; this is what makes the former guard alloc_ok provable from the code. *)
 
 (* the build without zlib (sc_io_nonuncompress + sc_puff + adler32 are inside the model) *)
 Theorem C07_decode_safe : forall data out maxsz,
-  bytes data -> len data < BIG -> out_ok out -> 0 <= maxsz -> alloc_ok data out maxsz ->
+  bytes data -> len data < DATA_MAX -> out_ok out -> 0 <= maxsz ->
   decode_post out maxsz (sc_decode data out maxsz).
 Proof. exact decode_safe. Qed.
 Print Assumptions C07_decode_safe.
-
-(* no guard at all for views of any capacity and element size ... *)
-Theorem C07_decode_safe_view : forall data out maxsz,
-  bytes data -> len data < BIG -> out_ok out -> 0 <= maxsz -> o_owner out = false ->
-  decode_post out maxsz (sc_decode data out maxsz).
-Proof. exact decode_safe_view. Qed.
-Print Assumptions C07_decode_safe_view.
-
-(* ... and for every output kind when the caller states a maximum *)
-Theorem C07_decode_safe_max : forall data out maxsz,
-  bytes data -> len data < BIG -> out_ok out -> 0 < maxsz < BIG ->
-  decode_post out maxsz (sc_decode data out maxsz).
-Proof. exact decode_safe_max. Qed.
-Print Assumptions C07_decode_safe_max.
 
 (* the same for ANY decompressor that keeps to its contract unc_safe:
    unc_safe unc := forall src size cap nil, bytes src -> len src < BIG -> 0 <= size ->
      (nil = false -> size <= cap < BIG) -> (nil = true -> size = 0 /\ 0 <= cap) ->
      match unc src size cap nil with Ok b => len b = size /\ bytes b | Err e => e = -1 | Oob => False | NoFuel => False end *)
 Theorem C07_decode_with_safe : forall unc data out maxsz,
-  unc_safe unc -> bytes data -> len data < BIG -> out_ok out -> 0 <= maxsz -> alloc_ok data out maxsz ->
+  unc_safe unc -> bytes data -> len data < DATA_MAX -> out_ok out -> 0 <= maxsz ->
   decode_post out maxsz (sc_decode_with unc data out maxsz).
 Proof. exact decode_with_safe. Qed.
 Print Assumptions C07_decode_with_safe.
@@ -70,45 +53,28 @@ Section Zlib.
   Hypothesis inflate_bytes : forall src size d, inflate src size = Some d -> bytes d.
 
   Theorem C07_decode_zlib_safe : forall data out maxsz,
-    bytes data -> len data < BIG -> out_ok out -> 0 <= maxsz -> alloc_ok data out maxsz ->
+    bytes data -> len data < DATA_MAX -> out_ok out -> 0 <= maxsz ->
     decode_post out maxsz (sc_decode_with (zlib_unc inflate) data out maxsz).
   Proof. exact (decode_zlib_safe inflate inflate_bytes). Qed.
-
-  (* sharper guard for this build: the owner must really have got `size` bytes (declared size <= 2^63) *)
-  Theorem C07_decode_zlib_safe_owner_max : forall data out maxsz,
-    bytes data -> len data < BIG -> out_ok out -> 0 <= maxsz ->
-    (o_owner out = true -> hdr_size data <= OWNER_MAX) ->
-    decode_post out maxsz (sc_decode_with (zlib_unc inflate) data out maxsz).
-  Proof. exact (decode_zlib_safe_owner_max inflate inflate_bytes). Qed.
-
-  Theorem C07_decode_zlib_safe_view : forall data out maxsz,
-    bytes data -> len data < BIG -> out_ok out -> 0 <= maxsz -> o_owner out = false ->
-    decode_post out maxsz (sc_decode_with (zlib_unc inflate) data out maxsz).
-  Proof. exact (decode_zlib_safe_view inflate inflate_bytes). Qed.
-
-  Theorem C07_decode_zlib_safe_max : forall data out maxsz,
-    bytes data -> len data < BIG -> out_ok out -> 0 < maxsz < BIG ->
-    decode_post out maxsz (sc_decode_with (zlib_unc inflate) data out maxsz).
-  Proof. exact (decode_zlib_safe_max inflate inflate_bytes). Qed.
 End Zlib.
 Print Assumptions C07_decode_zlib_safe.
-Print Assumptions C07_decode_zlib_safe_owner_max.
-Print Assumptions C07_decode_zlib_safe_view.
-Print Assumptions C07_decode_zlib_safe_max.
 
-(* the unguarded statement is refuted by a concrete 31-byte text (header size 2^63 + 8, zlib stream of
-   "aa"), owner output, no maximum: the model leaves its buffer exactly where ASan reports a
-   heap-buffer-overflow in the real code (known finding declared-size-over-2^62) *)
-Theorem C07_decode_unguarded_refuted :
-  exists data out, bytes data /\ len data < BIG /\ out_ok out /\ ~ alloc_ok data out 0 /\
-                   sc_decode data out 0 = Oob.
-Proof. exact decode_unguarded_refuted. Qed.
-Print Assumptions C07_decode_unguarded_refuted.
+(* regression guard for commit 5c6a588: the function as it was BEFORE the commit (DecodeModel.sc_decode_old, no bound
+   on the declared size) leaves its buffer on a concrete 31-byte text (header size 2^63 + 8, zlib stream of "aa"),
+   owner output, no maximum - in both builds; the repaired function refuses that text *)
+Theorem C07_decode_old_refuted :
+  exists data out, bytes data /\ len data < DATA_MAX /\ out_ok out /\ sc_decode_old data out 0 = Oob.
+Proof. exact decode_old_refuted. Qed.
+Print Assumptions C07_decode_old_refuted.
 
-Theorem C07_decode_zlib_unguarded_refuted : forall inflate,
-  sc_decode_with (zlib_unc inflate) refute_text refute_out 0 = Oob.
-Proof. exact decode_zlib_unguarded_refuted. Qed.
-Print Assumptions C07_decode_zlib_unguarded_refuted.
+Theorem C07_decode_zlib_old_refuted : forall inflate,
+  sc_decode_with_old (zlib_unc inflate) refute_text refute_out 0 = Oob.
+Proof. exact decode_zlib_old_refuted. Qed.
+Print Assumptions C07_decode_zlib_old_refuted.
+
+Theorem C07_decode_new_rejects_witness : sc_decode refute_text refute_out 0 = Err (-1).
+Proof. exact decode_new_rejects_witness. Qed.
+Print Assumptions C07_decode_new_rejects_witness.
 
 (* --- sc_io_decode_info --------------------------------------------------------------------------- *)
 Theorem C07_decode_info_safe : forall data, bytes data ->
